@@ -100,6 +100,13 @@ def gen_cases(rng, tier):
         {"relative_path": None}, {"relative_path": b"noext"}, {"relative_path": b"a.b/noext"},
         {"beatgrid": [(0, 0.0)]}, {"beatgrid": [(8, 100.0), (0, 50.0)]},
     ]
+    # a large, poorly compressible beat grid (its zlib stream needs several output buffers on the final flush)
+    idx, off, big = 0, 0.0, []
+    for _ in range(2500):
+        big.append((idx, off))
+        idx += rng.choice([1, 2, 4, 8])
+        off += rng.uniform(1000.0, 50000.0)
+    hand.append({"beatgrid": big})
     for i, h in enumerate(hand):
         x = {"relative_path": b"hand/%d.mp3" % i}
         x.update(h)
